@@ -52,7 +52,12 @@ def check_all_notes(ex, repo, cache):
                 if any(key in x for x in probs):
                     cls = name
                     break
-            return {"monitor": "notes.invariant", "class": cls, "detail": {"commit": commit, "problems": probs[:5]}}
+            touched = set(x for x in w.raw_git(repo, "diff-tree", "--no-commit-id", "--name-only", "-r", "-z", "--root",
+                                               commit).out.split("\0") if x)
+            bad_paths = [pth for pth in p["files"] if any(repr(pth) in x for x in probs)]
+            return {"monitor": "notes.invariant", "class": cls,
+                    "detail": {"commit": commit, "problems": probs[:5],
+                               "commit_touches_offending_path": any(pth in touched for pth in bad_paths)}}
         if p["files"]:
             ex.probe("ai_lines_observed")
         ex.probe("notes_checked")
